@@ -131,4 +131,4 @@ def draw_n(rng, tier):
         return rng.randint(9, 40)
     if r < 0.985:
         return rng.randint(41, 120)
-    return rng.randint(121, 400 if tier == 'thorough' else 120)
+    return rng.randint(121, 400) if tier == 'thorough' else rng.randint(41, 120)
